@@ -105,7 +105,13 @@ def run(ctx):
             if not esz:
                 esz = fallback_elem_size(fx, s) or 128
             lenlike = st is not None and strip_casts(st)[0] == 'call' and strip_casts(st)[1] in LENLIKE
-            if lenlike:
+            if lenlike and L is not None and not any(isinstance(x, tuple) and x and x[0] in ('next', 'phi') for x in walk(st)):
+                # the length of one collection reserved again on every iteration of a loop over another: the product of two counts that
+                # are each backed by input is not (seed C12-m: a row of num_layers slots per frame - 4096 layers x 6000 frames in a
+                # 190 KB file reserve 2.3 GB).  Justified is the length of what the iteration itself consumes (it contains the loop item)
+                verdict = 'declared-only'
+                why = 'size %s does not depend on the loop item but is reserved on every iteration: quadratic in the input' % show(st)[:70]
+            elif lenlike:
                 verdict = 'input-justified'
                 why = 'size is the length/capacity of a collection already in memory (%s)' % show(st)[:70]
             elif rng is not None and rng[1] * (esz + closure_allocs(fx, b, s)) <= CAP:
